@@ -139,6 +139,12 @@ Definition mh256_update : mh_ctx (list N) -> list N -> mh_ctx (list N) := mhc_up
 Definition mh256_finalize : mh_ctx (list N) -> list N :=
   mhc_finalize (list N) mh_sha256_block (list N) (mh_final sha256_algo).
 
+(* the interim digests after the tail blocks, i.e. the input of the final hash *)
+Definition mh1_tail (c : mh_ctx (list N)) : list N :=
+  mhc_tail (list N) mh_sha1_block (mc_partial c) (w32 (mc_total c)) (mc_state c).
+Definition mh256_tail (c : mh_ctx (list N)) : list N :=
+  mhc_tail (list N) mh_sha256_block (mc_partial c) (w32 (mc_total c)) (mc_state c).
+
 (* init, one update per segment, finalize *)
 Definition mh1_run (segs : list (list N)) : list N := mh1_finalize (fold_left mh1_update segs mh1_init).
 Definition mh256_run (segs : list (list N)) : list N := mh256_finalize (fold_left mh256_update segs mh256_init).
